@@ -129,7 +129,7 @@ def _run(case, ctx, d):
     rng = np.random.default_rng(case['seed'])
     raw = ['int16', 'float32'][int(rng.integers(0, 2))]
     n_samples = int(rng.integers(60, 160))
-    opts = dict(names=['ks', 'alf'][int(rng.integers(0, 2))], raw=raw, n_samples=n_samples, rate=float([100., 0.05][int(rng.integers(0, 2))]),
+    opts = dict(names=['ks', 'alf'][int(rng.integers(0, 2))], raw=raw, n_samples=n_samples, rate=float([100., 0.05, 1. / 300][int(rng.integers(0, 3))]),
                 ns=int(rng.integers(8, 40)), nt=int(rng.integers(2, 5)), nc=int(rng.integers(3, 7)), nsw=int(rng.integers(3, 6)),
                 clusters=['same', 'absent', 'curated'][int(rng.integers(0, 3))], raw_parts=int(rng.integers(1, 3)),
                 dtype_times=['uint64', 'int64'][int(rng.integers(0, 2))])
